@@ -95,7 +95,7 @@ pub fn strip_cfg(ts: &TokenStream, truth: &dyn Fn(&str) -> bool) -> String {
                             other => other.to_string(),
                         };
                         i += 2;
-                        if !truth(&pred) {
+                        if !truth(&crate::refm::pred_symbol(&pred)) {
                             // drop the item: everything up to (and including) the next comma, or up to a bar
                             while i < v.len() && !is_punct(&v[i], ',') && !is_punct(&v[i], '|') {
                                 i += 1;
